@@ -31,6 +31,7 @@ const (
 	HkHash         = byte('H')
 	HkInteger      = byte('i')
 	HkRegexp       = byte('r')
+	HkString       = byte('s')
 	HkTimespan     = byte('D')
 	HkTimestamp    = byte('T')
 	HkType         = byte('t')
@@ -578,6 +579,12 @@ func appendKey(b *bytes.Buffer, v px.Value) {
 // two containers are equal only when their elements have equal keys, one by one.
 func appendElementKey(b *bytes.Buffer, v px.Value) {
 	eb := bytes.NewBuffer(make([]byte, 0, 16))
+	if _, ok := v.(stringValue); ok {
+		// The key of a string is the raw string only at top level (Get4 and friends rely on that). Within a
+		// container it is marked, or it would be the key of the element whose key has the same bytes.
+		eb.WriteByte(1)
+		eb.WriteByte(HkString)
+	}
 	appendKey(eb, v)
 	var lb [binary.MaxVarintLen64]byte
 	b.Write(lb[:binary.PutUvarint(lb[:], uint64(eb.Len()))])
